@@ -154,6 +154,51 @@ impl Report {
         }
     }
 
+    /// Replay of a recorded violation: the enumeration of the same tier was re-executed on the
+    /// current tree; the verdict is whether the recorded signature occurs again (for the same
+    /// recorded case, when the replay payloads can be compared). Evidence and the other replay
+    /// files are left alone.
+    pub(crate) fn finish_replay(self, file: &str) -> i32 {
+        let text = match std::fs::read_to_string(file) {
+            Ok(t) => t,
+            Err(e) => {
+                eprintln!("cannot read replay file {}: {}", file, e);
+                return 2;
+            }
+        };
+        let v: Value = match serde_json::from_str(&text) {
+            Ok(v) => v,
+            Err(e) => {
+                eprintln!("replay file {} is not JSON: {}", file, e);
+                return 2;
+            }
+        };
+        if v["property"].as_str() != Some(self.id.as_str()) {
+            eprintln!("replay file {} is for property {:?}, not {}", file, v["property"], self.id);
+            return 2;
+        }
+        let sig = v["signature"].as_str().unwrap_or("").to_owned();
+        let hits: Vec<&Violation> = self.violations.iter().filter(|x| x.signature == sig).collect();
+        let same_case = hits.iter().any(|x| x.replay == v["replay"]);
+        println!(
+            "REPLAY {} {}: signature `{}`: {} occurrence(s) on the current tree{}",
+            self.id,
+            self.tier,
+            sig,
+            hits.len(),
+            if same_case { ", incl. the recorded case itself" } else { "" }
+        );
+        if let Some(h) = hits.first() {
+            println!("VIOLATION property={} replay={}", self.id, file);
+            println!("  signature: {}", h.signature);
+            println!("  detail: {}", h.detail);
+            1
+        } else {
+            println!("not reproduced: the recorded violation does not occur on the current tree");
+            0
+        }
+    }
+
     /// Writes evidence and replay files, prints KNOWN-FINDING / VIOLATION lines, returns exit code.
     pub(crate) fn finish(mut self) -> i32 {
         let root = verif_root();
